@@ -5,6 +5,15 @@ NOTES = ("Machine-checked proof in Lean 4 about a hand-written model that mirror
          "implementation's traces. See DESIGN.md.")
 NOT_YET = {}
 TEXT = {
+ "C15": {
+  "level": "Theorems (by `decide` over tables REGENERATED from /repo on every run by tools/extract_abi.py): status_discriminants/error_code/status_constants (documented codes in Rust, header, Dart), "
+           "header_agrees_with_rust, dart_agrees_with_rust (every looked-up symbol exists with ABI-equal signature), structs_agree + layouts (equal field lists, hence equal layouts; concrete "
+           "UpdateResult layout), and the ownership lemmas path_roundtrip / result_roundtrip / double_free_flagged / free_null in the heap model. Runtime side: nm -D of the built cdylib, "
+           "sizeof/offsetof from a C compiler vs the model layout, alloc/free sequences under valgrind memcheck (thorough: ASan).",
+  "design_ref": "DESIGN.md section 3, C15",
+  "note": "partial: allocator behaviour is runtime (valgrind is supporting evidence); Dart side checked as text.",
+  "technique": "Lean 4 theorems over source-derived tables (translator) + C/valgrind run against the built library",
+ },
  "C16": {
   "level": "Theorem roundtrip: for all byte strings older, newer (< 2^63) and every match list tiling newer, bipatchDecode (encodePatch older newer ms) older = newer - "
            "by induction over the match list with LEB128/zig-zag round-trip lemmas and wrapping byte arithmetic; roundtrip_hash for the reported hash. The Lean encoder is compared "
